@@ -7,9 +7,9 @@ Open Scope Z_scope.
 
 (* header table: every header that appears in an operation of the trace *)
 Definition op_headers (o : op) : list header :=
-  match o with OHeaders _ _ hs | OHeadersF _ _ hs _ => hs | _ => [] end.
+  match o with OHeaders _ _ hs | OHeadersF _ _ hs _ | OHeadersR _ _ hs _ => hs | _ => [] end.
 Definition op_now (o : op) : Z :=
-  match o with OHeaders _ now _ | OInv _ now _ | OHeadersF _ now _ _ => now | _ => 0 end.
+  match o with OHeaders _ now _ | OInv _ now _ | OHeadersF _ now _ _ | OHeadersR _ now _ _ => now | _ => 0 end.
 
 Definition find_hdr (tbl : list header) (x : Z) : option header :=
   match list_find (fun h => hid h = x) tbl with Some (_, h) => Some h | None => None end.
